@@ -79,6 +79,42 @@ def tpl_two(size, n1, n2, r1, t, other=0, _twin=False):
         w.close(code)
 
 
+def tpl_lockcycle(size, simple, n1, t, r1, n2, _twin=False):
+    """A request, then lock() t iterations later (the spawner may still be about to ask for room: it is refused),
+    an arbitrary worker released, unlock(), and a second request of n2 tasks: the bound holds through the refusal and after it."""
+    w = World("c01.lockcycle")
+    code = 0
+    try:
+        pool = _mkpool(size, simple == 1, w)
+        it = Interp(w, pool, cbkind=1 if simple != 1 else 0)
+        idle_check = _install(w, pool, size)
+        try:
+            if simple == 1:
+                it.start(n1)
+            else:
+                it.apply(n1)
+            w.ticks(t)
+            it.lock()
+            w.settle(); idle_check()
+            it.release(r1)
+            w.settle(); idle_check()
+            it.unlock()
+            if simple == 1:
+                it.start(n2)
+            else:
+                it.apply(n2)
+            w.settle(); idle_check()
+            w.drain(); idle_check()
+        except Excluded as e:
+            w.excluded = str(e)
+        code = w.err
+        if _twin and not code and not w.excluded and len(w.W) >= 3 and w.peak >= 2 and len(w.W) < n1 + n2:
+            code = 77
+        return code
+    finally:
+        w.close(code)
+
+
 SPAWN = ("apply2", "map2", "apply3", "starmap2")
 ALPHA = ("apply", "map", "rel", "fail", "cancel", "cgroup", "call", "flush", "nop")
 SPAWN_S = ("start2",)
@@ -165,6 +201,11 @@ def families(tier):
         pre=["size >= 0", "0 <= x1 < 4", "a2 >= -1", "0 <= x3 < %d" % na, "a3 >= -1"] + ([] if thorough else ["a2 <= 2", "a3 <= 2", "size <= 4"]),
         parts=parts_product(x1=range(4), x3=range(na)),
         twin_pre=["x1 == 0"], twin_args=[2, 0, 0, na - 1, 0]))
+    fams.append(Family(
+        name="lockcycle", fn="tpl_lockcycle", params=["size", "simple", "n1", "t", "r1", "n2"],
+        pre=["size >= -1", "0 <= simple <= 1", "1 <= n1 <= 3", "t >= 0", "r1 >= 0", "0 <= n2 <= 4"] + ([] if thorough else ["size <= 3", "r1 <= 3"]),
+        parts=parts_product(simple=(0, 1), n1=(1, 2, 3)) if not thorough else parts_product(simple=(0, 1), n1=(1, 2, 3), n2=range(5)),
+        twin_pre=["simple == 0", "n1 == 3"], twin_args=[2, 0, 3, 0, 0, 3]))
     if not thorough:
         # K = 2 after the spawn, step 2 at any boundary (t) or embedded in any user-code site (s2)
         fams.append(Family(
